@@ -80,6 +80,7 @@ type Contract struct {
 	PanicsIf  []Clause
 	Assigns   []ast.Expr
 	HasAssign bool
+	TrustedFrame bool
 	Returns   ast.Expr
 	ReturnsIf []Clause // returns_if cond: expr  (Label unused; Expr = cond, From[0] = source of value expr)
 	ReturnsIfVal []ast.Expr
@@ -583,8 +584,12 @@ func (eng *Engine) loadContractFile(file string) error {
 				}
 				loop.Invariants = append(loop.Invariants, c)
 			}
-		case "assigns":
+		case "assigns", "trusted_assigns":
 			cur.HasAssign = true
+			if kw == "trusted_assigns" {
+				// the frame is used by callers and listed as trusted; it is not checked against the body
+				cur.TrustedFrame = true
+			}
 			if rest != "nothing" {
 				e, err := parseSpecExpr("f(" + rest + ")")
 				if err != nil {
@@ -1921,7 +1926,7 @@ func (env *specEnv) call(c *ast.CallExpr) Value {
 		if !ok || len(c.Args) != 2 {
 			env.fail("forallInt(k, body)")
 		}
-		bv := BoundVar(fmt.Sprintf("%s!%d", id.Name, boundCounter()), IntSort)
+		bv := BoundVar(fmt.Sprintf("%s!%d", id.Name, boundCounter()), ex.idxSort()) // Int, or 64-bit vectors in bv mode
 		sub := *env
 		sub.names = map[string]Value{}
 		for k, v := range env.names {
